@@ -104,6 +104,12 @@ def unexpected(exc: BaseException, what: str) -> Violation:
     )
 
 
+def from_lightworks(exc: BaseException) -> bool:
+    """True when the exception was raised inside lightworks code (not in the harness)."""
+    tb = traceback.extract_tb(exc.__traceback__)
+    return bool(tb) and "/lightworks/" in tb[-1].filename
+
+
 def call(what: str, fn: Callable, *a: Any, **k: Any) -> Any:
     """Call into lightworks; any exception is a violation of 'does not raise'."""
     try:
@@ -202,7 +208,14 @@ def _make_execute(sub: "Sub", last: dict, t0: float, stats: "Stats",
         if time.time() - t0 > sub.cap_s and not last.get("failing"):
             raise _Stop()
         try:
-            info = sub.run(case)
+            try:
+                info = sub.run(case)
+            except Violation:
+                raise
+            except Exception as e:  # noqa: BLE001
+                if from_lightworks(e):
+                    raise unexpected(e, "unguarded call") from e
+                raise
         except Violation as v:
             if v.key in known_keys:
                 stats.known_hits[v.key] += 1
@@ -364,8 +377,15 @@ class RecordingMixin:
             raise _Stop()
         self.log.append([name, args])
         try:
-            getattr(self, "do_" + name)(**args)
-            self.after_step()
+            try:
+                getattr(self, "do_" + name)(**args)
+                self.after_step()
+            except Violation:
+                raise
+            except Exception as e:  # noqa: BLE001
+                if from_lightworks(e):
+                    raise unexpected(e, f"step {name}") from e
+                raise
         except Violation as v:
             self._on_violation(v)
 
